@@ -324,7 +324,9 @@ class Check:
         path.write_text(json.dumps(payload, indent=1, sort_keys=True, default=repr) + "\n")
         return str(path.relative_to(VERIF))
 
-    def shrink(self, case, still_fails):
+    def shrink(self, case, fails_pred):
+        """Greedy delta debugging; candidates are evaluated in batches (one driver process per batch).
+        `fails_pred(result_tuple) -> bool` judges one (case, impl_out, model_out, oracle) result."""
         shr = getattr(self.mod, "shrink", None)
         if not shr:
             return case
@@ -332,21 +334,37 @@ class Check:
         progress = True
         while progress and time.time() < deadline:
             progress = False
+            batch = []
             for cand in shr(case):
-                try:
-                    if still_fails(cand):
-                        case, progress = cand, True
-                        break
-                except Timeout:
-                    raise
-                except Exception:
-                    continue
+                batch.append(cand)
+                if len(batch) >= 48:
+                    break
+            if not batch:
+                break
+            try:
+                results = self.run_cases(batch)
+            except Timeout:
+                raise
+            except Exception:
+                results = []
+                for cand in batch:          # one bad candidate must not sink the batch
+                    try:
+                        results += self.run_cases([cand])
+                    except Timeout:
+                        raise
+                    except Exception:
+                        continue
+            for r in results:
+                if fails_pred(r):
+                    case, progress = r[0], True
+                    break
         return case
 
     # -- main ------------------------------------------------------------------------
     def run(self, replay=None):
         pid, mod, tier = self.pid, self.mod, self.tier
         violations, known_hits, notes = [], [], []
+        harness_crash = None
         ev_cov = {}
 
         # 1. regenerate + build
@@ -373,7 +391,16 @@ class Check:
             corpus = list(mod.corpus()) if hasattr(mod, "corpus") else []
             corpus += load_corpus_dir(pid)
             corpus_n = len(corpus)
-            cases = corpus + list(mod.generate(self.rng, tier))
+            cases = list(corpus)
+            try:
+                for c in mod.generate(self.rng, tier):
+                    cases.append(c)
+            except Timeout:
+                raise
+            except Exception as e:      # generators may drive the real code: a crash there is a broken tie
+                harness_crash = f"generate() raised {type(e).__name__}: {e}"[:400]
+                if os.environ.get("VERIF_DEBUG"):
+                    traceback.print_exc()
         results = self.run_cases(cases)
 
         disagreements = [(c, io, mo) for (c, io, mo, orc) in results if not self.agree(c, io, mo)]
@@ -384,12 +411,19 @@ class Check:
 
         # 3. if the tie or a proof is broken: property-directed search on the real code
         searched = 0
-        if (disagreements or proof_broken) and replay is None:
+        if (disagreements or proof_broken or harness_crash) and replay is None:
             extra = []
-            if hasattr(mod, "search"):
-                extra = list(mod.search(self.rng, tier, [c for c, _, _ in disagreements]))
-            else:
-                extra = list(mod.generate(random.Random(self.seed + 7919), "thorough"))
+            try:
+                if hasattr(mod, "search"):
+                    for c in mod.search(self.rng, tier, [c for c, _, _ in disagreements]):
+                        extra.append(c)
+                else:
+                    for c in mod.generate(random.Random(self.seed + 7919), "thorough"):
+                        extra.append(c)
+            except Timeout:
+                raise
+            except Exception as e:
+                harness_crash = harness_crash or f"search() raised {type(e).__name__}: {e}"[:400]
             searched = len(extra)
             more = self.run_cases(extra)
             oracle_fail += [(c, io, orc) for (c, io, mo, orc) in more if orc]
@@ -408,8 +442,7 @@ class Check:
                 known_hits.append((key, orc.get("detail", ""), c))
                 continue
 
-            def still(cand, key=key):
-                r = self.run_cases([cand])[0]
+            def still(r, key=key):
                 return bool(r[3]) and r[3].get("key", "witness") == key
             c2 = self.shrink(c, still)
             r2 = self.run_cases([c2])[0]
@@ -425,8 +458,7 @@ class Check:
             # a disagreement that coincides with a *known* finding's witness is explained by it
             c, io, mo = min(disagreements, key=lambda t: len(jdump(t[0])))
 
-            def still_d(cand):
-                r = self.run_cases([cand])[0]
+            def still_d(r):
                 return not self.agree(r[0], r[1], r[2])
             c2 = self.shrink(c, still_d)
             r2 = self.run_cases([c2])[0]
@@ -435,6 +467,11 @@ class Check:
                 "theorem_or_tie": f"correspondence harness/corr/{pid}.py (model vs implementation)",
                 "disagreements": len(disagreements), "searched_cases": searched})
             violations.append((path, True, f"model and implementation disagree on {len(disagreements)} case(s)"))
+        if harness_crash and not new_witness and not disagreements:
+            path = self.write_replay("tie-broken", {
+                "theorem_or_tie": f"correspondence harness/corr/{pid}.py could not drive the implementation",
+                "detail": harness_crash, "searched_cases": searched})
+            violations.append((path, True, "the harness's generator crashed on the implementation: " + harness_crash))
         if proof_broken and not new_witness:
             path = self.write_replay("proof-broken", {
                 "theorem_or_tie": [t["name"] for t in aud["theorems"] if t["axioms"] is None] or aud["problems"],
